@@ -63,7 +63,7 @@ CONTRACTS[M + "from_NoteContainer"] = dict(
                    split=None,
                    cases=[dict(when="not standalone", returns="str", ensures=[("a-rest", "result == 'r'")]),
                           dict(when=None, returns="str", ensures=[("a-rest-in-braces", "result == '{ r }'")])])],
-    split=[{"field_types": {"nc.notes": "[" + ",".join(["Note"] * k) + "]"}} for k in range(0, 2)], split_is_domain=True,
+    split=[{"field_types": {"nc.notes": "[" + ",".join(["Note"] * k) + "]"}} for k in range(0, 4)], split_is_domain=True,
     modifies=[], properties=["C19"], battery="ly_containers",
     notes="deductive domain: containers of 0 or 1 notes with arbitrary names and octaves, no duration; chords of 2 and "
           "more notes are the SAME clause checked at run time over the battery (bounded: equalities between "
